@@ -95,7 +95,11 @@ def _apply_edits(piece, edits):
             else:
                 n[4] = 127 if a % 2 else 1
         elif kind == "ts":
-            tracks[r % len(tracks)]["meta"].append(["ts", max(0, a * 3), b, c])
+            bars = piece.get("bars") or [[0, 96, [4, 4]]]
+            tick = bars[r % len(bars)][0] if a % 4 else max(0, a * 3)
+            for t in tracks:                      # the edited signature replaces whatever sits on that tick
+                t["meta"] = [m for m in t["meta"] if not (m[0] == "ts" and m[1] == tick)]
+            tracks[r % len(tracks)]["meta"].append(["ts", tick, b, c])
         elif kind == "drop-track" and len(tracks) > 1:
             tracks.pop()
     for t in tracks:
@@ -212,7 +216,8 @@ def check(case):
         return out
     piece = case["piece"]
     if kind == "wild":
-        piece = _apply_edits({"tracks": [dict(t, notes=[list(n) for n in t["notes"]], meta=[list(m) for m in t["meta"]])
+        piece = _apply_edits({"bars": piece["bars"],
+                              "tracks": [dict(t, notes=[list(n) for n in t["notes"]], meta=[list(m) for m in t["meta"]])
                                          for t in piece["tracks"]]}, case["edits"])
     seqs = []
     nnotes = 0
